@@ -884,6 +884,12 @@ class Gen:
         self.vars[n] = {"ty": ty, "ptr": False, "len": 0, "const": False, "prot": True}
         pre = [DECL(n, ty, L(0))]
         body = self.block(r.randrange(1, 3), depth, nest + 1)
+        if r.random() < 0.7 and "cast" not in self.avoid:
+            # the body observes the counter: a store that depends on it
+            lv, lty = self.lvalue(0)
+            if lv is not None:
+                use = CAST(lty, B("*", V(n), self.leaf(ty, False)))
+                body.append(ASG(lv, use, "+=") if "compound" not in self.avoid else ASG(lv, B("+", copy.deepcopy(lv), use)))
         cond = B("<", V(n), L(bound))
         if r.random() < 0.4:
             cond = B("and", cond, self.bexpr(max(0, depth - 1), calls=False))
